@@ -82,6 +82,27 @@ def run(args):
     nr = len([t for t in C.tlc_tuples(out) if "no_race" in t])
     expect("threads: logged Release of fetch_sub replaced by Relaxed (%d events) -> races reported" % n_rel, nr > 0, "%d racy executions" % nr)
 
+    # ... and turn one operation's end into a panic of that (in-contract) operation
+    bad = os.path.join(wd, "bad_t2.ndjson")
+    lines = txt.split("\n")
+    idx = next((i for i, ln in enumerate(lines) if '"k":"op_begin"' in ln), None)
+    if idx is None:
+        expect("threads: one operation panics -> rejected", False, "(no op_begin event)")
+    else:
+        lines.insert(idx + 1, lines[idx].replace('"k":"op_begin"', '"k":"op_panic"'))
+        open(bad, "w").write("\n".join(lines))
+        rc, out = C.run_tlc("AtomicsMonitor", "AtomicsMonitor.cfg", os.path.join(C.WORK, "tlc_selftest_t2"), workers=1, env_extra={"TRACE": bad}, timeout=900)
+        expect("threads: one operation panics -> rejected", any("op_returns" in t for t in C.tlc_tuples(out)))
+
+    # pure-function trace: one comparison panics
+    from . import pure as P
+    pr = P.run_mode("selftest", "cmp", "quick", 1)
+    expect("pure: unmodified comparison trace accepted", len(pr["violations"]) == 0)
+    bad = os.path.join(wd, "bad_p.ndjson")
+    open(bad, "w").write(open(pr["trace"]).read() + '{"k":"panic","mode":"cmp","l":[1],"r":[]}\n')
+    rc, out = C.run_tlc("PureTrace", "PureTrace.cfg", os.path.join(C.WORK, "tlc_selftest_p"), workers=1, env_extra={"TRACE": bad}, timeout=900)
+    expect("pure: a comparison that panics -> rejected", any("no_panic" in t for t in C.tlc_tuples(out)))
+
     # cursor trace: change one result byte
     names = K.method_names()
     progs, _ = K.generate("selftest_c", "buf", 1, 2, 1, [3], ["copy_to_slice", "chunk", "get"], ["get_u16"], [0], 50, 5, timeout=300)
@@ -92,6 +113,13 @@ def run(args):
     rc, out = C.run_tlc("BufTrace", "BufTrace.cfg", os.path.join(C.WORK, "tlc_selftest_c"), workers=1, env_extra={"TRACE": bad}, timeout=900)
     nv = len([t for t in C.tlc_tuples(out) if "LAWVIOL" in t[:14]])
     expect("cursors: one returned byte changed -> rejected", okc and nv > 0)
+    # a copying read that fails must leave the cursor where it was: make one failing read consume a byte
+    progs2, _ = K.generate("selftest_c2", "buf", 1, 1, 1, [3], ["copy_to_slice", "copy_to_bytes"], [], [0], 1, 5, timeout=300, leaf_types=["slice"], wraps=())
+    cr2 = K.run_and_validate("selftest_c2", progs2[:200])
+    bad = os.path.join(wd, "bad_c2.ndjson")
+    okc2 = corrupt_lines(cr2["trace"], bad, sub_once(r'("op":"copy_to_(?:slice|bytes)".*?"out":"panic".*?"tree":\{"k":"leaf","ty":"slice".*?"d":\[)\d+,?', lambda m: m.group(1)))
+    rc, out = C.run_tlc("BufTrace", "BufTrace.cfg", os.path.join(C.WORK, "tlc_selftest_c2"), workers=1, env_extra={"TRACE": bad}, timeout=900)
+    expect("cursors: a failing copying read that consumed a byte -> rejected", okc2 and any("failed_read_untouched" in t for t in C.tlc_tuples(out)), "" if okc2 else "(pattern not found)")
 
     # ---- (ii) model mutants -------------------------------------------------------------
     try:
@@ -99,6 +127,13 @@ def run(args):
         expect("BytesImpl with the pre-fix unchecked `new_cap + offset` violates LawsAccept", False)
     except C.ToolError as e:
         expect("BytesImpl with the pre-fix unchecked `new_cap + offset` violates LawsAccept", "LawsAccept" in str(e) or "NoOverflow" in str(e))
+    try:
+        D.run_model("selftest_mut2", 4, 3, 6, 3, ["b_from_vec", "b_split_to", "b_split_off", "b_clone_from", "b_clone", "drop"], 0, 1,
+                    mutation="clone_from_same_ptr", parities=(0,), timeout=600)
+        expect("BytesImpl with a clone_from that trusts equal start addresses violates its invariants", False, "(no violation found)")
+    except C.ToolError as e:
+        expect("BytesImpl with a clone_from that trusts equal start addresses violates its invariants", "violates its own invariant" in str(e),
+               str(e)[:160].replace("\n", " "))
     from . import hostile as X
     try:
         X.model("selftest_hostile", 5, 1000, 1, mutation="bmput_reserve_once", emit=False)
